@@ -179,7 +179,7 @@ def plan14(job, out, case=None):
             for _ in range(job.get('n', 40)):
                 machines = [{'id': 'm%d' % i, 'flops': rng.choice(gen.SPEEDS),
                              'bw': rng.choice(gen.BWS)} for i in range(rng.randint(1, 4))]
-                wf = gen.gen_workflow(rng, machines, nmax=rng.choice([1, 3, 8, 20, 40]),
+                wf = gen.gen_workflow(rng, machines, nmax=rng.choice([1, 3, 8, 20, 40, 60, 90]),
                                       labels=rng.choice([None, 'shuffle']))
                 if rng.random() < 0.3:
                     # non-contiguous integer node ids
@@ -443,6 +443,12 @@ def units16(job, out, case=None):
         if case is not None:
             cases = [case]
         else:
+            for _ in range(job.get('n', 24) // 2):
+                k = rng.choice([2, 3, 5, 7, 13, 30, 45, 90, 150, 300, 600, 900, 1200, 86400])
+                cases.append({'kind': 'units16', 'family': 'custom_only', 'custom': k,
+                              'quotients': [[rng.randint(0, 70), rng.randint(1, 70)]
+                                            for _ in range(6)],
+                              'rate': rng.choice([1, 2, 0.5, 3])})
             for _ in range(job.get('n', 24)):
                 k = rng.choice([2, 5, 7, 30, 90, 600])
                 L = 3600 * 7 * 90 // math.gcd(3600 * 7, 90)   # times are multiples of all units
@@ -469,6 +475,10 @@ def units16(job, out, case=None):
             if out['case'] is None:
                 out['case'] = c
             parsed = {}
+            if c.get('family') == 'custom_only':
+                _units_custom_only(out, c, d)
+                out['extra_nontrivial'].append(case_hash(c))
+                continue
             for sp in SPELLINGS:
                 unit = c['custom'] if sp == 'custom' else sp
                 simcase = {'machines': c['machines'], 'system_bandwidth': c['system_bandwidth'],
@@ -505,9 +515,11 @@ def units16(job, out, case=None):
                     V('absent_unit_not_seconds')
                 for (n0, s0, d0, dem0, r0), (n1, s1, d1, dem1, r1), oc in zip(
                         base['obs'], p['obs'], c['observations']):
-                    if abs(s1 * m - oc['start']) > 1e-6 or abs(d1 * m - oc['duration']) > 1e-6:
-                        V('time_not_divided', obs=n1, start=s1, duration=d1, m=m,
-                          column='observation')
+                    # times are generated as exact multiples of every unit tried: the quotient
+                    # must be the exact whole number (7.000000000000001 steps is one step more)
+                    if s1 != oc['start'] // m or d1 != oc['duration'] // m:
+                        V('time_not_divided', obs=n1, start=repr(s1), duration=repr(d1), m=m,
+                          expected=[oc['start'] // m, oc['duration'] // m], column='observation')
                     if r1 != round(oc['rate'] * m):
                         V('data_rate_not_multiplied', obs=n1, rate=r1, m=m, column='observation')
                     if dem1 != oc['demand']:
@@ -567,6 +579,41 @@ def units16(job, out, case=None):
         shutil.rmtree(d, ignore_errors=True)
 
 
+def _units_custom_only(out, c, d):
+    """Observation times q*k seconds under the custom unit k: the parsed start/duration
+    must be exactly q steps (compared with the same plan parsed in seconds)."""
+    from topsim.core.config import Config
+    k = c['custom']
+    obs = [{'name': 'o%d' % i, 'start': qs * k, 'duration': qd * k, 'demand': 1,
+            'rate': c['rate'], 'ingest_demand': 1,
+            'workflow': {'nodes': [{'id': 0, 'comp': 1}], 'edges': []}}
+           for i, (qs, qd) in enumerate(c['quotients'])]
+    simcase = {'machines': [{'id': 'm0', 'flops': 2, 'bw': 2}], 'system_bandwidth': 1,
+               'telescope': {'total_arrays': 4, 'max_ingest': 1}, 'observations': obs,
+               'buffer': {'hot': {'capacity': 10 ** 9, 'max_ingest_rate': 10},
+                          'cold': {'capacity': 10 ** 9, 'max_data_rate': 10}}}
+    res = {}
+    for unit in ('seconds', k):
+        simcase['timestep'] = unit
+        shutil.rmtree(d, ignore_errors=True)
+        cfg = Config(gen.materialise(simcase, d))
+        res[unit] = cfg.parse_instrument_config('telescope')[2]
+        out['evaluations'] += 1
+        _bump(out, 'c16_configs_parsed')
+    for o_s, o_k, (qs, qd) in zip(res['seconds'], res[k], c['quotients']):
+        _bump(out, 'c16_observation_checks')
+        if o_k.est != qs or o_k.duration != qd:
+            _viol(out, 'C16', 'time_not_divided', dict(c), spelling_kind='custom', obs=o_k.name,
+                  start=repr(o_k.est), duration=repr(o_k.duration), expected=[qs, qd], m=k,
+                  column='observation')
+        if o_s.est != qs * k or o_s.duration != qd * k:
+            _viol(out, 'C16', 'time_not_divided', dict(c), spelling_kind='seconds', obs=o_s.name,
+                  start=repr(o_s.est), duration=repr(o_s.duration), m=1, column='observation')
+        if o_k.ingest_data_rate != round(c['rate'] * k):
+            _viol(out, 'C16', 'data_rate_not_multiplied', dict(c), spelling_kind='custom',
+                  obs=o_k.name, rate=o_k.ingest_data_rate, m=k, column='observation')
+
+
 # ----------------------------------------------------------------------
 # C18 direct harness on the real Buffer moves
 
@@ -587,7 +634,8 @@ def move18(job, out, case=None):
                 hr, cr = rng.randint(1, 12), rng.randint(1, 12)
                 if rng.random() < 0.2:
                     cr = hr
-                mode = rng.choice(['h2c', 'c2h', 'round', 'h2c_refused', 'c2h_refused', 'round'])
+                mode = rng.choice(['h2c', 'c2h', 'round', 'h2c_refused', 'c2h_refused', 'round',
+                                   'h2c_exact', 'c2h_exact'])
                 hot_cap = size + rng.randint(1, 30)
                 cold_cap = size + rng.randint(0, 30)
                 cases.append({'kind': 'move18', 'size': size, 'hot_rate': hr, 'cold_rate': cr,
@@ -609,17 +657,23 @@ def move18(job, out, case=None):
             obs.total_data_size = c['size']
             mode = c['mode']
             legs = []
-            if mode in ('h2c', 'round', 'h2c_refused'):
+            if mode in ('h2c', 'round', 'h2c_refused', 'h2c_exact'):
                 hot.observations['stored'].append(obs)
                 hot.current_capacity -= c['size']
                 if mode == 'h2c_refused':
-                    cold.current_capacity = rng.randint(0, c['size'] - 1) if c['size'] > 0 else 0
+                    cold.current_capacity = c.get('dst_free', rng.randint(0, c['size'] - 1))
+                    c['dst_free'] = cold.current_capacity
+                if mode == 'h2c_exact':
+                    cold.current_capacity = c['size']      # exactly enough room: must proceed
                 legs = ['h2c'] + (['c2h'] if mode == 'round' else [])
             else:
                 cold.observations['stored'].append(obs)
                 cold.current_capacity -= c['size']
                 if mode == 'c2h_refused':
-                    hot.current_capacity = rng.randint(0, c['size'] - 1)
+                    hot.current_capacity = c.get('dst_free', rng.randint(0, c['size'] - 1))
+                    c['dst_free'] = hot.current_capacity
+                if mode == 'c2h_exact':
+                    hot.current_capacity = c['size']
                 legs = ['c2h']
             out['evaluations'] += 1
             for leg in legs:
@@ -669,6 +723,10 @@ def _one_move(out, c, env, buf, obs, leg, refused):
         prev = cur
     if exc is not None:
         V('move_raised', exc=type(exc).__name__ + ': ' + str(exc)[:60])
+        return
+    if not refused and proc.triggered and proc.ok and proc.value is False:
+        V('move_refused_although_destination_has_room', size=size,
+          hot_free=h0, cold_free=c0, exact_fit=c['mode'].endswith('exact'))
         return
     h1, c1 = hot.current_capacity, cold.current_capacity
     lists1 = (list(hot.observations['stored']), list(cold.observations['stored']))
